@@ -578,26 +578,6 @@ class Summary:
                        digest(_arith(_resort(_phitable(_mask(_simplify2(body), lvnum))))))
                 ranked.append((key, len(ranked), (entry[1], digest(init) if init is not None else None)))
                 self.__dict__.setdefault('_inits_by_ident', {})[(entry[1], digest(init) if init is not None else None)] = init
-        cvnum = {}
-        per_loop = {}
-        for key, _, ident in sorted(ranked):
-            if ident not in cvnum:
-                k_ = per_loop.get(key[0], 0)
-                per_loop[key[0]] = k_ + 1
-                cvnum[ident] = f"{key[0]}.{k_}"        # numbered within their own loop: what other loops carry does not matter
-        self.cvnum = cvnum
-        shapes = {}
-        for (nm, _dg), v in cvnum.items():
-            pass
-        for key, _, ident in sorted(ranked):
-            init_ = self._inits_by_ident.get(ident)
-            if init_ is not None:
-                k2 = (id(cvnum), ident[0], digest(_mask0(init_)))
-                if k2 in shapes and shapes[k2] != cvnum[ident]:
-                    shapes[k2] = None           # ambiguous: two carried values of one name with initial values of the same shape
-                else:
-                    shapes[k2] = cvnum[ident]
-        _CV_BY_SHAPE[0] = {k_: v for k_, v in shapes.items() if v is not None}
         # liveness of loop-carried values: one that nothing but its own update ever reads (a temporary that happens to be assigned
         # under a condition) is not part of what the function computes
         def carried_in(t):
@@ -627,6 +607,27 @@ class Summary:
                 continue
             live_carried.add(x)
             todo.extend(bodies.get(x, ()))
+        cvnum = {}
+        per_loop = {}
+        # live values are numbered first: a dead temporary that one spelling carries and the other does not must not shift the numbers
+        for key, _, ident in sorted(ranked, key=lambda r_: (r_[0][0], r_[2] not in live_carried, r_[0], r_[1])):
+            if ident not in cvnum:
+                k_ = per_loop.get(key[0], 0)
+                per_loop[key[0]] = k_ + 1
+                cvnum[ident] = f"{key[0]}.{k_}"        # numbered within their own loop: what other loops carry does not matter
+        self.cvnum = cvnum
+        shapes = {}
+        for (nm, _dg), v in cvnum.items():
+            pass
+        for key, _, ident in sorted(ranked):
+            init_ = self._inits_by_ident.get(ident)
+            if init_ is not None:
+                k2 = (id(cvnum), ident[0], digest(_mask0(init_)))
+                if k2 in shapes and shapes[k2] != cvnum[ident]:
+                    shapes[k2] = None           # ambiguous: two carried values of one name with initial values of the same shape
+                else:
+                    shapes[k2] = cvnum[ident]
+        _CV_BY_SHAPE[0] = {k_: v for k_, v in shapes.items() if v is not None}
         for ev in r.events:
             k = ev.kind
             if k in _SKIP:
